@@ -57,10 +57,14 @@ func (c *c06Case) scenario() *Scenario {
 	if c.Bystander != "" {
 		sc.Config.ExtDir = append(sc.Config.ExtDir, DirEntry{Name: "e2", Kind: "file"})
 		ev := []string{"INVOKE"}
-		if c.Bystander == "shutdown" {
+		onShut := ""
+		if c.Bystander == "shutdown" || c.Bystander == "shutdown-exiterr" {
 			ev = []string{"INVOKE", "SHUTDOWN"}
 		}
-		sc.Actors["ext:e2"] = []Script{{Steps: []Step{{Op: "ext.loop", Events: ev}}}}
+		if c.Bystander == "shutdown-exiterr" {
+			onShut = "exiterr" // reports /extension/exit/error while the environment is being torn down, then exits
+		}
+		sc.Actors["ext:e2"] = []Script{{Steps: []Step{{Op: "ext.loop", Events: ev, OnShut: onShut}}}}
 	}
 	subE1 := c.SubE1
 	if subE1 == nil {
@@ -133,6 +137,16 @@ func (c *c06Case) scenario() *Scenario {
 			sc.Driver = append(sc.Driver, Step{Op: "invoke", Tag: fmt.Sprintf("W%d_%d", g, w), Payload: &kit.Blob{Len: 10 + w, Seed: uint64(g*10 + w), Kind: "ascii"}})
 		}
 		if f.Point == "idle" {
+			// "idle" means: the environment has completed its initialisation - every extension polled, not only the faulty party
+			if c.Bystander != "" {
+				sc.Driver = append(sc.Driver, Step{Op: "waitstate", Who: "ext:e2", State: "Ready", Ms: 3000})
+			}
+			if useE1 && f.Who == "runtime" {
+				sc.Driver = append(sc.Driver, Step{Op: "waitstate", Who: "ext:e1", State: "Ready", Ms: 3000})
+			}
+			if f.Who == "ext" {
+				sc.Driver = append(sc.Driver, Step{Op: "waitstate", Who: "runtime", State: "Ready", Ms: 3000})
+			}
 			sc.Driver = append(sc.Driver, Step{Op: "await", Name: "idle" + tagF, Ms: 3000}, Step{Op: "signal", Name: "goidle" + tagF}, Step{Op: "await", Name: died, Ms: 3000}, Step{Op: "sleep", Ms: 60})
 		} else if g == 0 && f.initPhase() && !f.Pending && f.Point != "launch" {
 			sc.Driver = append(sc.Driver, Step{Op: "await", Name: died, Ms: 3000}, Step{Op: "sleep", Ms: 60})
@@ -220,7 +234,7 @@ func c06Check(c c06Case) (out kit.Outcome) {
 		return out
 	}
 	for _, n := range tr.notes() {
-		if strings.Contains(n, "await-timeout") {
+		if strings.Contains(n, "await-timeout") || strings.Contains(n, "waitstate-timeout") {
 			out.Inconclusive = "harness latch timed out: " + n
 			return out
 		}
@@ -379,7 +393,7 @@ func c06GenFault(t *rapid.T, g int, allowExt bool) c06Fault {
 }
 
 func c06Gen(t *rapid.T) c06Case {
-	c := c06Case{Bystander: rapid.SampledFrom([]string{"", "", "invoke", "shutdown"}).Draw(t, "bystander")}
+	c := c06Case{Bystander: rapid.SampledFrom([]string{"", "", "invoke", "shutdown", "shutdown-exiterr"}).Draw(t, "bystander")}
 	n := rapid.IntRange(1, 2).Draw(t, "generations")
 	for g := 0; g < n; g++ {
 		c.Faults = append(c.Faults, c06GenFault(t, g, true))
@@ -398,8 +412,9 @@ func c06Fixed() []c06Case {
 	bys := []string{""}
 	if kit.Thorough() {
 		exits = []string{"code:0", "code:3", "sig:9"}
-		bys = []string{"", "invoke", "shutdown"}
+		bys = []string{"", "invoke", "shutdown", "shutdown-exiterr"}
 	}
+	out = append(out, c06Case{Bystander: "shutdown-exiterr", Faults: []c06Fault{{Who: "runtime", Point: "afternext", Exit: "code:1"}, {Who: "runtime", Point: "afternext", Exit: "code:2"}}})
 	rtPoints := []string{"init", "initerror", "afternext", "afterresponse", "idle", "launch"}
 	extPoints := []string{"beforeregister", "afterregister", "initerror", "afterevent", "exiterror", "idle", "launch"}
 	for _, by := range bys {
